@@ -142,6 +142,8 @@ impl DisplacedTable {
         &&& forall|i: int, j: int| 0 <= i <= j < self.n() ==> (#[trigger] self.displaced@[i]).1.ix() <= (#[trigger] self.displaced@[j]).1.ix()
         // a displaced id is never canonical
         &&& forall|r: int| 0 <= r < self.n() ==> root(self.p(), (#[trigger] self.displaced@[r]).0.ix()) != self.displaced@[r].0.ix()
+        // and every non-canonical id is displaced: the table holds exactly the ids that lost their class
+        &&& forall|k: Value| #![trigger self.lookup_table@.contains_key(k)] root(self.p(), k.ix()) != k.ix() ==> self.lookup_table@.contains_key(k)
     }
 
     /// row r as the table presents it: [displaced id, its canonical id, timestamp]
@@ -333,7 +335,8 @@ impl DisplacedTable {
             // the row [k, canonical id of k, timestamp] exists exactly for displaced ids (what the bridge's get_canon_in_uf reads)
             Some(row) => self.lookup_table@.contains_key(key@[0]) && row.id == self.lookup_table@[key@[0]]
                 && self.row_ok(row.id.ix() as int, row.vals@) && row.vals@[0] == key@[0],
-            None => !self.lookup_table@.contains_key(key@[0]),
+            // no row: the id is canonical (its own representative)
+            None => !self.lookup_table@.contains_key(key@[0]) && root(self.p(), key@[0].ix()) == key@[0].ix(),
         }
 //@ at closure 0 spec
             ensures r@.len() == 0
